@@ -11,7 +11,7 @@ import random
 from fractions import Fraction
 
 from .. import compare, expr as E, pipeline, refsem, routinegen as G
-from ..real import evaluate, sympy_backend as B, try_compile, walk
+from ..real import BartiqCompilationError, evaluate, sympy_backend as B, try_compile, walk
 from . import c01
 
 LEVEL = "proof"
@@ -162,6 +162,39 @@ def hierarchy(ctx):
                                 ctx.violation("failing-input", f"multiplicative resource under a constant sequence is not child ** (count*multiplier) at count {n}",
                                               {"qref": q, "assignments_in_order": list(asg.items())}, str(node.resources["cost"].value), ep)
                                 return
+                if kind == "custom" and symbolic:
+                    # "symbols evaluated later": a parameter that occurs only in the CHILD's resource is first given a value that mentions a
+                    # symbol spelled like the sequence's iterator.  That outer symbol is not the bound index: either the assignment is
+                    # refused (the implementation's guard) or, once the outer symbol gets a number, the resource is the unrolled sum with
+                    # the child's resource taken at that number — never a sum in which the index has captured it
+                    for n in (1, 2, 3, 5):
+                        pv, qv, itv = rng.randint(2, 5), rng.randint(1, 4), rng.randint(3, 9)
+                        hist = [{"z": "2*it"}, {"c": n, "p": pv, "q": qv}]      # the outer `it` stays free; it gets its number outside bartiq
+                        ctx.stats["iterator_named_assignments"] += 1
+                        try:
+                            ev = evaluate(evaluate(r.routine, hist[0]).routine, hist[1]).routine
+                        except BartiqCompilationError:
+                            ctx.stats["iterator_named_assignment_refused"] += 1
+                            continue
+                        except Exception as e:
+                            ctx.violation("failing-input", f"evaluate of a custom repetition raised {type(e).__name__}", {"qref": q, "history": hist}, str(e)[:200], "a value or bartiq's own error")
+                            return
+                        es, _ = unrolled(kind, n, Fraction(pv), Fraction(qv), Fraction(2 * itv), True)
+                        for path, node in walk(ev):
+                            if node.name != "w":
+                                continue
+                            got = node.resources["T"].value
+                            try:
+                                sp = __import__("sympy")
+                                gv = E.sympy_ev(sp.sympify(got).doit().subs(sp.Symbol("it"), itv), {})
+                            except (E.Undefined, OverflowError):
+                                continue
+                            ctx.stats["iterator_named_assignment_compared"] += 1
+                            if not compare.close(gv, es, True):
+                                ctx.violation("failing-input", f"additive resource of a custom repetition differs from the unrolled sum at count {n} when the child's parameter was first "
+                                              "assigned an expression mentioning a symbol spelled like the iterator (captured by the sum)",
+                                              {"qref": q, "history": hist}, str(got), es)
+                                return
                 ctx.nontrivial(("hierarchy", kind, symbolic, depth))
                 ctx.sample({"kind": kind, "symbolic": symbolic, "depth": depth, "qref": q}, cap=3)
 
@@ -194,6 +227,9 @@ def replay(payload):
         if st == "ok":
             asg = dict(map(tuple, inp.get("assignments_in_order", [])))
             ev = evaluate(r.routine, asg).routine if asg else r.routine
+            for step in inp.get("history", []) if isinstance(inp.get("history"), list) else []:
+                print("evaluate", step)
+                ev = evaluate(ev, step).routine
             for p, a in walk(ev):
                 for rn, x in a.resources.items():
                     print(".".join(p) or "root", rn, "=", x.value)
